@@ -307,6 +307,22 @@ fn trace_cfg(sc: &Scenario) -> Option<String> {
                 .collect();
             (oc, true, false, 0)
         }
+        "lzma2w" | "lzipw" => {
+            // open-system replay (the writers' coordinator is not the LTS's): every unit meets the same options,
+            // so its outcome is decided by whether the single-threaded writer accepts them
+            let good = {
+                let sample = b"trace validation sample";
+                if sc.kind == "lzma2w" {
+                    let mut w = LZMA2Writer::new(Vec::new(), LZMA2Options { lzma_options: { let mut o = lz_opts_sc(sc); o.preset_dict = None; o }, chunk_size: None });
+                    w.write_all(sample).and_then(|_| w.flush()).is_ok()
+                } else {
+                    let mut w = LZIPWriter::new(Vec::new(), LZIPOptions { lzma_options: lz_opts_sc(sc), member_size: None });
+                    w.write_all(sample).is_ok() && w.finish().is_ok()
+                }
+            };
+            let u: String = if good { "-".into() } else { "f".repeat(64) };
+            return Some(format!("W units={u} initw=1"));
+        }
         _ => return None,
     };
     let u: String = if outcomes.is_empty() { "-".into() } else { outcomes.iter().map(|&b| if b { 'o' } else { 'f' }).collect() };
@@ -615,7 +631,11 @@ fn main() {
                 }
                 if let Some(tc) = &tcfg {
                     for t in sk.traces.drain(..) {
-                        rep.model(format!("mt.trace {tc} ev={}", t.join(",")), format!("ok events={}", t.len()));
+                        let req = match tc.strip_prefix("W ") {
+                            Some(w) => format!("mt.wtrace {w} ev={}", t.join(",")),
+                            None => format!("mt.trace {tc} ev={}", t.join(",")),
+                        };
+                        rep.model(req, format!("ok events={}", t.len()));
                         rep.count(&format!("trace.{}", sc.kind));
                         traces_total += 1;
                     }
